@@ -95,6 +95,35 @@ def sub_stats(case):
     return "const" if (case.get("const") or ("bulk" in case and case["bulk"]["const"])) else ("single" if len(v) == 1 else "generic")
 
 
+def sub_stats_history(case):
+    """statistics read, unit changed, statistics read again: they always follow from the current values"""
+    v = _values(case)
+    if len(v) == 0:
+        return
+    for u1, u2 in ((Unit.meters, Unit.centimeters), (Unit.meters, Unit.kilometers), (Unit.millimeters, Unit.meters), (Unit.radians, Unit.degrees),
+                   (Unit.degrees, Unit.radians)):
+        m = metrics.APE(PoseRelation.translation_part) if case["cls"] == "ape" else metrics.RPE(PoseRelation.translation_part)
+        m.unit = u1
+        m.error = v.copy()
+        if case["read_first"]:
+            m.get_statistic(metrics.StatisticsType.rmse)
+            m.get_all_statistics()
+            m.get_result()
+        m.change_unit(u2)
+        ref = rm.statistics(m.error)
+        got = m.get_all_statistics()
+        res = m.get_result()
+        for k in ref:
+            floor = 1e-300 + (1e-9 * abs(ref["mean"]) if k == "std" else 0.0)
+            for src, val in (("get_all_statistics", got[k]), ("get_result", res.stats[k])):
+                if not abs(float(val) - ref[k]) <= 1e-9 * max(abs(float(val)), abs(ref[k])) + floor:
+                    raise Mismatch("after %s -> %s (statistics %sread before): %s of %s is %r, the current values give %r" % (
+                        u1.value, u2.value, "" if case["read_first"] else "not ", k, src, float(val), ref[k]), observed="stat_stale", stat=k)
+        if not np.array_equal(res.np_arrays["error_array"], m.error):
+            raise Mismatch("result array is not the converted values", observed="result_array")
+    return "stats_history"
+
+
 def sub_units(case):
     v = _values(case)
     if len(v) == 0:
@@ -238,6 +267,9 @@ def sub_rpe_result(case):
     relation = o["relation"]
     n = ref.n
     delta = 1 + o["delta"] % max(1, n - 1)
+    dunit = o.get("dunit", "f")
+    if dunit != "f":
+        return _rpe_result_other_units(case, ref, est, o, dunit)
     ro, eo = ref.build(case["ref"]["pre"], timed=True), est.build(case["est"]["pre"], timed=True)
     unit0 = metrics.RPE(REL[relation]).unit
     cu = None
@@ -302,6 +334,59 @@ def sub_rpe_result(case):
     return "rpe/%s%s" % ("all" if o["all_pairs"] else "cons", "/ratio" if relation == "point_distance_error_ratio" else "")
 
 
+def _rpe_result_other_units(case, ref, est, o, dunit):
+    """delta in meters / radians (consecutive or all pairs): several pairs may end at the same pose; one companion entry per value"""
+    relation = o["relation"]
+    if o["still"]:
+        P = est.P.copy()
+        for i in range(2, est.n, 3):
+            P[i] = P[i - 1]
+        est = trajgen.Real(P, est.Rs(), est.mode, est.T)
+    eo_sel = est.build(timed=True)
+    if dunit == "m":
+        acc = rm.accumulated(est.P)
+        delta = max(acc[-1], 1e-6) * (0.15 + 0.1 * (o["delta"] % 5))
+        unit = Unit.meters
+    else:
+        delta = 0.05 + 0.3 * (o["delta"] % 6)
+        unit = Unit.radians
+    try:
+        pairs = metrics.id_pairs_from_delta(eo_sel.poses_se3, delta, unit, 0.3, o["all_pairs"])
+    except filters.FilterException:
+        pairs = None
+    ro, eo = ref.build(case["ref"]["pre"], timed=True), est.build(case["est"]["pre"], timed=True)
+    try:
+        res = main_rpe.rpe(ro, eo, REL[relation], float(delta), unit, rel_delta_tol=0.3, all_pairs=o["all_pairs"], ref_name="reference",
+                           est_name="estimate", support_loop=o["support_loop"])
+    except filters.FilterException:
+        if pairs is not None:
+            raise Mismatch("rpe() refused although pairs exist", observed="spurious_refusal")
+        return "refused"
+    except ValueError:
+        if relation == "point_distance_error_ratio":
+            return "empty_ratio"
+        raise
+    if pairs is None:
+        raise Mismatch("rpe() returned a result although no pair realises the delta", observed="missing_refusal")
+    ends = [int(j) for i, j in pairs]
+    if relation == "point_distance_error_ratio":
+        ends = [int(j) for i, j in pairs if float(np.linalg.norm(ref.P[j] - ref.P[i])) != 0.0]
+    nvals = len(res.np_arrays["error_array"])
+    if nvals != len(ends):
+        raise Mismatch("rpe(): %d values for %d selected pairs" % (nvals, len(ends)), observed="count")
+    tr_est = res.trajectories["estimate"]
+    tr_ref = res.trajectories["reference"]
+    if tr_est.num_poses != nvals + 1 or tr_ref.num_poses != nvals + 1:
+        raise Mismatch("stored trajectories have %d/%d poses for %d values (first pose + one end pose per value expected; pair ends %s)" % (
+            tr_ref.num_poses, tr_est.num_poses, nvals, ends), observed="stored_traj")
+    exp_T = est.T[[0] + ends]
+    if not np.array_equal(np.asarray(tr_est.timestamps), exp_T) or not np.array_equal(np.asarray(tr_ref.timestamps), ref.T[[0] + ends]):
+        raise Mismatch("stored trajectories are not the first pose followed by the pair end poses %s" % ends, observed="stored_traj")
+    _check_companions(res, list(range(1, nvals + 1)), "RPE")
+    _check_title(res, "RPE", relation, metrics.RPE(REL[relation]).unit, ["all pairs" if o["all_pairs"] else "consecutive pairs", "(%s)" % unit.value])
+    return "rpe/%s/%s%s" % (dunit, "all" if o["all_pairs"] else "cons", "/repeated_ends" if len(set(ends)) != len(ends) else "")
+
+
 st_vals = st.fixed_dictionaries({
     "vals": st.lists(st.one_of(st.just(0.0), gen.fl(1e-6, 1.0)), min_size=1, max_size=200), "mag": gen.log_uniform(-12, 6), "const": st.booleans(),
     "cls": st.sampled_from(["ape", "rpe"])})
@@ -321,12 +406,16 @@ st_ape = _pair_with(st.fixed_dictionaries({
     "correct_scale": st.booleans(), "align_origin": st.booleans(), "change_unit": st.booleans(), "cu_i": st.integers(0, 3)}))
 st_rpe = _pair_with(st.fixed_dictionaries({
     "relation": st.sampled_from(rm.RELATIONS), "align": st.booleans(), "all_pairs": st.booleans(), "delta": st.integers(0, 12),
-    "change_unit": st.booleans(), "cu_i": st.integers(0, 3), "support_loop": st.booleans(), "still": st.booleans()}))
+    "change_unit": st.booleans(), "cu_i": st.integers(0, 3), "support_loop": st.booleans(), "still": st.booleans(),
+    "dunit": st.sampled_from(["f", "f", "m", "r"])}))
 
 SUBS = [
     Sub("stats", sub_stats, st_vals, 2500, 80000, nontrivial=lambda c: len(set(c["vals"])) >= 2 and not c["const"]),
     Sub("stats_bulk", sub_stats, st_bulkvals, 12, 200, nontrivial=lambda c: not c["bulk"]["const"], shards_quick=4),
     Sub("units", sub_units, st_unitvals, 300, 10000),
+    Sub("stats_history", sub_stats_history, st.fixed_dictionaries({
+        "vals": st.lists(st.one_of(st.just(0.0), gen.fl(1e-6, 1.0)), min_size=1, max_size=30), "mag": gen.log_uniform(-6, 4), "const": st.booleans(),
+        "cls": st.sampled_from(["ape", "rpe"]), "read_first": st.booleans()}), 300, 10000, nontrivial=lambda c: c["read_first"]),
     Sub("ape_result", sub_ape_result, st_ape, 800, 30000, nontrivial=lambda c: c["ref"]["n"] >= 2),
     Sub("rpe_result", sub_rpe_result, st_rpe, 800, 30000, nontrivial=lambda c: c["ref"]["n"] >= 3),
 ]
